@@ -35,7 +35,9 @@ TRUSTED = [
     "Section variables: body (uninterpreted job function), fails (set of failing jobs) — no hypotheses",
     "harness/lib/fakeworker.py: fake Worker, hooks on Submitter.get_runnable_tasks / fetch_finished",
 ]
-ASSUMPTIONS = ["graphs are listed in an order where every predecessor comes earlier and node names are distinct "
+ASSUMPTIONS = ["theorems C15_safety ... speak about a run over a cache that holds no result of the workflow's jobs "
+               "(C15_partial); a forced re-run over a warm cache is outside (C15_refuted_warm_rerun, finding F15)",
+               "graphs are listed in an order where every predecessor comes earlier and node names are distinct "
                "(wf_graph; what DiGraph.sorting produces)",
                "fresh cache directory per run; split nodes are combined so that the job count of a node is static"]
 RULE = ("an observed run of a generated workflow (2-6 nodes, <=3 predecessors, nodes split 1-3 ways, <=10 jobs) under "
@@ -45,15 +47,97 @@ RULE = ("an observed run of a generated workflow (2-6 nodes, <=3 predecessors, n
 SPEC = """
 Definition spec_ok (c : case_t) : bool :=
   let g := c_graph c in let lg := c_log c in
-  safe_log_b g [] lg && nodup_jobs_b (launches_of lg)
-  && (if is_nil (c_fails c) && (c_status c =? 0) then every_job_once_b g lg else true).
+  is_nil lg    (* runs on the real process pool: the start/finish log is not observable *)
+  || (safe_log_b g [] lg && nodup_jobs_b (launches_of lg)
+      && (if is_nil (c_fails c) && (c_status c =? 0) then every_job_once_b g lg else true)).
 """
 
 
+def upstream_of(case):
+    byid = {n["id"]: n for n in case["nodes"]}
+    jobs = {n["id"]: [j for j in fakes.all_jobs([n])] for n in case["nodes"]}
+    return {nid: [j for p in n["preds"] for j in jobs[p]] for nid, n in byid.items()}, jobs
+
+
+def first_early_launch(case, obs):
+    """(job, number of finish events of this run that precede it) of the first job launched before all the jobs it
+    consumes have finished in THIS run; None if there is none."""
+    up, _ = upstream_of(case)
+    finished, nfin = set(), 0
+    for e in obs.get("evlog") or []:
+        jid = (int(e[1][0][1:]), e[1][1])
+        if e[0] == "F":
+            nfin += 1
+            if e[2]:
+                finished.add(jid)
+        elif any(q not in finished for q in up[jid[0]]):
+            return jid, nfin
+    return None
+
+
+def classify(case, obs):
+    """Finding F15 (known): forced re-run over a warm cache under an asynchronous worker, where a poll happens
+    (some job of the re-run has completed) while an upstream job that was launched or queued has not started
+    its re-execution yet: its stale result is taken for its completion.  An early start in the very first
+    scheduling pass (before any completion) is NOT in that class."""
+    if case["mode"] == "rerun_cf":
+        return "F15"
+    if case["mode"] != "rerun":
+        return None
+    early = first_early_launch(case, obs)
+    if early is not None:
+        return "F15" if early[1] > 0 else None
+    _, jobs = upstream_of(case)
+    launched = {(int(e[1][0][1:]), e[1][1]) for e in obs.get("evlog") or [] if e[0] == "L"}
+    alljobs = {j for js in jobs.values() for j in js}
+    nfin = sum(1 for e in obs.get("evlog") or [] if e[0] == "F")
+    return "F15" if (launched != alljobs and nfin > 0) else None
+
+
+def rerun_cases(ctx, n_async, n_sync, n_cf):
+    rng = ctx.rng
+    out = [dict(nodes=[dict(id=0, preds=[], split=None), dict(id=1, preds=[0], split=None)], k=None, fail=[],
+                oracle=[], mode=m) for m in ("rerun", "rerun_sync")]        # the plain chain A -> B, both loops
+    for i in range(n_async + n_sync):
+        nodes = fakes.gen_nodes(rng, nmin=2, nmax=5, maxjobs=8)
+        nj = sum(fakes.njobs(n) for n in nodes)
+        if i < n_async:
+            out.append(dict(nodes=nodes, k=fakes.gen_k(rng, nj), fail=[], oracle=fakes.gen_oracle(rng, nj), mode="rerun"))
+        else:
+            out.append(dict(nodes=nodes, k=None, fail=[], oracle=[], mode="rerun_sync"))
+    for _ in range(n_cf):
+        # two slow jobs ahead of A in a one-process pool, B consumes A
+        out.append(dict(nodes=[dict(id=0, preds=[], split=None), dict(id=1, preds=[], split=None),
+                               dict(id=2, preds=[], split=None), dict(id=3, preds=[2], split=None)],
+                        k=None, fail=[], oracle=[], mode="rerun_cf", n_procs=1, dur=[[0, -1, 0.7], [1, -1, 0.7]]))
+    return out
+
+
 def run(ctx):
+    extra = rerun_cases(ctx, ctx.budget(8, 120), ctx.budget(3, 30), ctx.budget(0, 2))
     out, cases, obs, usable, bad = fakes.drive(
-        ctx, "c15", SPEC, ctx.budget(28, 300), ctx.budget(6, 50), ctx.budget(16, 768), RULE,
-        "a job started before an upstream job succeeded / started twice / was never run")
+        ctx, "c15", SPEC, ctx.budget(24, 300), ctx.budget(6, 50), ctx.budget(14, 768), RULE,
+        "a job started before an upstream job succeeded / started twice / was never run", extra_cases=extra,
+        classify=classify)
+    # forced re-run over a warm cache: every value in the outputs must come from the second run
+    spec_bad = set(bad["spec"])
+    stale = {"F15": 0, "new": 0}
+    reported = set()
+    for i in usable:
+        c, o = cases[i], obs[i]
+        if not c["mode"].startswith("rerun") or o.get("outcome") != "ok" or o.get("generations") == [2]:
+            continue
+        f = classify(c, o)
+        stale["F15" if f else "new"] += 1
+        if i in spec_bad and c["mode"] == "rerun":
+            continue                                    # already reported through the start/finish log
+        if f in reported:
+            continue
+        reported.add(f)
+        out.failures.append(Failure(
+            case=c, observed=fakes.slim(o), expected={"generations_in_outputs": [2]}, kind="spec", finding=f,
+            note="forced re-run over a warm cache: a job consumed the stale (first-run) value of an upstream job"))
+    out.distribution["rerun_runs_with_stale_values"] = stale
     return out
 
 
